@@ -456,7 +456,12 @@ func cmdTranslate(repo, outDir string) int {
 		fmt.Println("translate: intfns: ", err)
 		return 2
 	}
-	hows := []string{factsMsg, rulesMsg, intMsg}
+	codeMsg, err := writeCode(outDir, repo)
+	if err != nil {
+		fmt.Println("translate: code: ", err)
+		return 2
+	}
+	hows := []string{factsMsg, rulesMsg, intMsg, codeMsg}
 	for _, p := range predNames {
 		hows = append(hows, p+"="+how[p]+":"+strconv.Itoa(len(tabs[p])))
 	}
